@@ -27,7 +27,7 @@ REQUIRED = ['keeps_direct_seats', 'house_grows_by_adj', 'house_grows_by_adj_of_f
             'level_terminates_lr', 'level_final_is_proportional_lr', 'level_terminates_of_adequate',
             'level_cty_final_party_totals', 'partyVotes_ok', 'level_cty_refuses_tie', 'level_cty_ok_no_tie',
             'level_cty_tie_witness', 'level_cty_terminates']
-NAME_MODES = ['str', 'int0', 'empty0', 'person']
+NAME_MODES = ['str', 'int0', 'empty0', 'person', 'tuple']
 REQUIRED_COUNTERS = ['overhang_present', 'no_overhang', 'party_outside_tier', 'party_without_votes',
                      'levelling_iterations_ge2', 'by_constituency', 'multistage_wrapped',
                      'allow', 'level', 'd_hondt', 'sainte_lague', 'hare_lr', 'tie_in_baseline', 'multistage_depth2', 'default_overall', 'apportioned', 'intermediate_tie', 'alabama_lr', 'cty_party_name_clash', 'clash_str', 'clash_int0',
